@@ -1,6 +1,7 @@
 package sim
 
 import (
+	"fmt"
 	"runtime"
 	"runtime/debug"
 	"sync"
@@ -28,8 +29,9 @@ type Sched struct {
 	SwitchDen int
 	// Coarse: yield only at harness step boundaries and I/O seams (race build), not inside
 	// allocator calls, whose sequence depends on sync.Pool's random drops under -race.
-	Coarse bool
-	wg     sync.WaitGroup
+	Coarse   bool
+	wg       sync.WaitGroup
+	switchAt [8]int64
 }
 
 // Task is one simulated caller goroutine.
@@ -67,6 +69,53 @@ func (s *Sched) Spawn(name string, body func(t *Task)) *Task {
 	t.C = s.c.sub(name, t.ID)
 	s.tasks = append(s.tasks, t)
 	return t
+}
+
+// SpawnTape registers a task whose decisions come from the given tape (not recorded in
+// the run's tape): used to re-execute a task with exactly the decisions of an earlier
+// solo execution.
+func (s *Sched) SpawnTape(name string, tape *Tape, body func(t *Task)) *Task {
+	t := &Task{ID: len(s.tasks), Name: name, s: s, body: body}
+	t.C = s.c.subTape(name, t.ID, tape)
+	s.tasks = append(s.tasks, t)
+	return t
+}
+
+// RunSolo executes a task body alone on the calling goroutine (no scheduler: every yield
+// is a no-op) with its own child context and tape streams "t<id>/...". It returns the
+// task, the streams it consumed and the violation it raised, if any.
+func RunSolo(c *Ctx, id int, name string, body func(t *Task)) (t *Task, rec map[string][]uint32, viol *Violation) {
+	tape := c.Tape.Sub(fmt.Sprintf("t%d/", id))
+	t = &Task{ID: id, Name: name}
+	t.C = c.subTape(name, id, tape)
+	t.C.TaskID = -1 // no scheduler in this pass
+	t.C.Sched = nil
+	func() {
+		defer func() {
+			if r := recover(); r != nil {
+				switch v := r.(type) {
+				case *Violation:
+					viol = v
+				case runAbort:
+					viol = &Violation{Class: "ABORTED", Site: v.reason}
+				case schedAbort:
+				default:
+					viol = t.C.panicViolation(t.C.Op, r)
+				}
+			}
+		}()
+		body(t)
+	}()
+	rec = map[string][]uint32{}
+	tape.collect(rec)
+	// strip the prefix: a replay tape for the concurrent pass addresses streams by bare name
+	bare := map[string][]uint32{}
+	pre := tape.prefix
+	for k, v := range rec {
+		bare[k[len(pre):]] = v
+	}
+	c.merge(t.C)
+	return t, bare, viol
 }
 
 //go:norace
@@ -122,6 +171,7 @@ func (s *Sched) Yield(me int, point int) {
 	}
 	next := others[v-len(others)*(s.SwitchDen-1)]
 	s.Switch++
+	s.switchAt[point&7]++
 	s.sig = (s.sig ^ uint64(next+1) ^ uint64(point+1)<<8) * 0x100000001b3
 	s.cur = next
 	s.waitFor(me)
@@ -204,6 +254,11 @@ func (s *Sched) Run() *Violation {
 	s.c.Ev(uint64(s.sig), uint64(s.Switch))
 	s.c.CountN("sched.switches", s.Switch)
 	s.c.CountN("sched.yields", s.steps)
+	for i, name := range []string{"step", "source_read", "sink_write", "malloc", "free"} {
+		if s.switchAt[i] > 0 {
+			s.c.CountN("probe.switch_at_"+name, s.switchAt[i])
+		}
+	}
 	if s.Switch > 0 {
 		s.c.NonTriv = true
 	}
@@ -217,4 +272,11 @@ func (s *Sched) abortedNow() bool { return s.abort }
 func (s *Sched) Sig() uint64 { return s.sig }
 
 // Yield is a harness-level step boundary of the task.
-func (t *Task) Yield() { t.s.Yield(t.ID, YStep) }
+func (t *Task) Yield() {
+	if t.s != nil {
+		t.s.Yield(t.ID, YStep)
+	}
+}
+
+// Violation returns the violation the task raised, if any.
+func (t *Task) Violation() *Violation { return t.viol }
